@@ -79,6 +79,25 @@ class FreshMonitor(Monitor):
         if op["op"] == "cons_set" and w.has(op.get("kind"), op.get("s")):
             self._settings = settings_of(op["kind"], w.pool[op["kind"]][op["s"]])
 
+    def fresh_ps(self, ps):
+        """A rule set rebuilt from the rules the harness saw accepted, so that
+        nothing hidden inside the long-lived PostSelection object (a memo of
+        verdicts, say) is shared with the reference.  Predicates and the
+        default object are passed through."""
+        if type(ps).__name__ != "PostSelection":
+            return ps
+        w = self.w
+        rules = None
+        for ref, obj in w.pool["ps"].items():
+            if obj is ps and w.meta["ps"][ref].get("pkind") == "rules":
+                rules = list(w.meta["ps"][ref]["rules"])
+        if rules is None:
+            rules = [(tuple(r_.modes), tuple(r_.n_photons)) for r_ in ps.rules]
+        f = lw.PostSelection(ps.multi_rules)
+        for modes, ns in rules:
+            f.add(tuple(modes), tuple(ns))
+        return f
+
     def fresh(self, kind, s):
         if kind == "sam":
             # "the same settings": freshly created source and detector objects
@@ -95,9 +114,9 @@ class FreshMonitor(Monitor):
         if kind == "qs":
             return emu.QuickSampler(s.circuit, s.input_state,
                                     photon_counting=s.photon_counting,
-                                    post_select=s.post_select)
+                                    post_select=self.fresh_ps(s.post_select))
         a = emu.Analyzer(s.circuit)
-        a.post_selection = s.post_selection
+        a.post_selection = self.fresh_ps(s.post_selection)
         return a
 
     def leak_check(self, op, out):
@@ -242,6 +261,8 @@ class FreshMonitor(Monitor):
                 seams.script_draws(w, [])
         if k in ("sample_n_inputs", "sample_n_outputs"):
             ps = None if op.get("ps") is None else w.pool["ps"].get(op["ps"])
+            if ps is not None:
+                ps = self.fresh_ps(ps)
             m = f.sample_N_inputs if k == "sample_n_inputs" else f.sample_N_outputs
             return m(op["n"], post_select=ps, min_detection=op.get("md", 0),
                      seed=val(w, op["seed"]))
